@@ -616,6 +616,34 @@ def extreme_bad():
                 bad.append(f"magnitude {lab}: {what}: {got}, expected {want}")
         if not sp.sympify(q_time.dimension).equals(units.time) and q_time.dimension != units.time:
             bad.append(f"magnitude {lab}: Quantity(m*second) has dimension {q_time.dimension}")
+    # vector components that are zero, infinite or NaN match anything, like scalars do: such a vector is built and passes a length guard
+    one_m = Quantity(1 * units.meter)
+    for lab, mkc in (("oo m", lambda: Quantity(sp.oo * units.meter)), ("-oo s", lambda: Quantity(-sp.oo * units.second)), ("nan", lambda: Quantity(sp.nan)), ("0.0 s", lambda: Quantity(0.0 * units.second)),
+                     ("0 s", lambda: Quantity(0 * units.second)), ("oo (bare)", lambda: Quantity(sp.oo))):
+        for order in (0, 1):
+            def build():
+                comps = [one_m, mkc()] if order == 0 else [mkc(), one_m]
+                return QuantityVector(comps)
+            got = outcome(lambda: seq(build()))
+            if got != "accepted":
+                bad.append(f"vector [1 m, {lab}] (special component {'last' if order == 0 else 'first'}) for a length: {got}, expected accepted")
+        got = outcome(lambda: seq(QuantityVector([Quantity(1 * units.second), mkc()])))
+        if got != "UnitsError":
+            bad.append(f"vector [1 s, {lab}] for a length: {got}, expected UnitsError")
+    # arguments that are dimensioned SYMBOLS of the library (a Symbol, an unapplied Function, an IndexedSymbol) carry a dimension too and go
+    # through the same gate: the declared one is accepted, another one refused with a units error (scalar, keyword, sequence element, result)
+    from symplyphysics import Symbol, Function, IndexedSymbol
+    ref = Symbol("r", units.time)
+    for kind, mk in (("Symbol", lambda d: Symbol("x", d)), ("Function", lambda d: Function("F", [ref], d)), ("IndexedSymbol", lambda d: IndexedSymbol("i", None, d))):
+        good, wrong = mk(units.length), mk(units.time)
+        for what, call, want in ((f"{kind} of the declared dimension", lambda: same(good), "accepted"), (f"{kind} of another dimension (positional)", lambda: same(wrong), "UnitsError"),
+                                 (f"{kind} of another dimension (keyword)", lambda: same(a=wrong), "UnitsError"),
+                                 (f"{kind} of another dimension as a sequence element", lambda: seq([Quantity(1 * units.meter), wrong]), "UnitsError"),
+                                 (f"{kind} of the declared dimension as a sequence element", lambda: seq([good, Quantity(1 * units.meter)]), "accepted"),
+                                 (f"{kind} of another dimension as the result", lambda: out(wrong), "UnitsError"), (f"{kind} of the declared dimension as the result", lambda: out(good), "accepted")):
+            got = outcome(call)
+            if got != want:
+                bad.append(f"{what}: {got}, expected {want}")
     return bad
 """
 
@@ -627,7 +655,7 @@ def part_b_extreme(ctx):
     if bad:
         ctx.violation("C04:B:extreme-magnitudes", "; ".join(bad[:4]) + f" ({len(bad)} cases)", EXTREME_SRC + "\nimport sys\nb = extreme_bad()\nprint(b[:8])\nif b:\n    print('REPRODUCED'); sys.exit(1)\n")
     else:
-        ctx.ob("B:non-zero magnitudes outside the double range (1e-400 .. 1e400) get the verdict of any other non-zero magnitude (6 magnitudes x 10 gate situations)", "discharged", nontrivial=False)
+        ctx.ob("B:non-zero magnitudes outside the double range (1e-400 .. 1e400) get the verdict of any other non-zero magnitude (6 magnitudes x 10 gate situations); dimensioned symbols / functions / indexed symbols as arguments and results (21 situations)", "discharged", nontrivial=False)
 
 
 def part_b_vector_argument(ctx):
